@@ -403,6 +403,13 @@ class ExprEval:
                     out = num_mul(out, d_)
                 return out
             return base.payload.rank if name == "ndim" else tuple(base.payload.shape)
+        if isinstance(base, Opaque) and base.tag in ("series", "frame") and isinstance(base.payload, Arr) and name in ("index", "columns") \
+                and (name == "index" or (base.tag == "frame" and base.payload.rank == 2)):
+            # the labels themselves are arbitrary (a fresh uninterpreted label array): nothing may depend on their values
+            self.note_assumption(f"pandas: frame.{name} has one (arbitrary) label per {'row' if name == 'index' else 'column'} of the held values")
+            from .values import sym_array
+            d_ = base.payload.shape[0 if name == "index" else 1]
+            return Opaque("series", sym_array("labels_" + name, (d_,), "int"))
         if isinstance(base, Opaque) and base.tag in ("series", "frame") and isinstance(base.payload, Arr) and name == "isna":
             return FuncRef("lambda0", Opaque("isna", base.payload), name="isna")
         if isinstance(base, Opaque) and base.tag == "isna" and name == "any":
